@@ -3,6 +3,12 @@ mod common;
 mod tl;
 mod gen;
 mod c02;
+mod c03;
+mod c04;
+mod c08;
+mod c16;
+mod c18;
+mod c20;
 mod c06;
 mod c07;
 mod c09;
@@ -31,6 +37,12 @@ fn main() {
             let tier = args.get(3).cloned().unwrap_or_else(|| "quick".into());
             let rep = match id.as_str() {
                 "C02" | "C05" => c02::run(&id, &tier),
+                "C03" => c03::run(&tier),
+                "C04" => c04::run(&tier),
+                "C08" => c08::run(&tier),
+                "C16" => c16::run(&tier),
+                "C18" => c18::run(&tier),
+                "C20" => c20::run(&tier),
                 "C06" => c06::run(&tier),
                 "C07" => c07::run(&tier),
                 "C09" => c09::run(&tier),
@@ -53,6 +65,12 @@ fn main() {
             let detail = &doc["detail"];
             let code = match id.as_str() {
                 "C02" | "C05" => c02::replay(detail, &id),
+                "C03" => c03::replay(detail),
+                "C04" => c04::replay(detail),
+                "C08" => c08::replay(detail),
+                "C16" => c16::replay(detail),
+                "C18" => c18::replay(detail),
+                "C20" => c20::replay(detail),
                 "C06" => c06::replay(detail),
                 "C07" => c07::replay(detail),
                 "C09" => c09::replay(detail),
